@@ -163,7 +163,7 @@ def run_unit(root, scratch, idx, unit, rlimit=None):
     res = dict(unit=unit, failures=[], undecided=[], verified=0, errors=0, fns=[], time_s=0.0, smt_s=0.0, rewrites=[],
                trusted_base=[], lemmas=[], cmd="")
     try:
-        text, origin, info = gen.build_unit(idx, u["verify"], u["trusted"], u["spec"], root, spec_import=u.get("spec_import", ()))
+        text, origin, info = gen.build_unit(idx, u["verify"], u["trusted"], u["spec"], root, spec_import=u.get("spec_import", ()), module_ext=u.get("module_ext", True))
     except gen.GenError as e:
         res["undecided"].append("generator: %s" % e)
         return res
